@@ -16,6 +16,21 @@ def _alarm(signum, frame):
     raise Hang()
 
 
+_NOTE = ""
+
+
+def note(s):
+    """records what the runner is doing inside the current case (read by the driver when it has to kill a
+    worker that spins inside compiled code)"""
+    global _NOTE
+    _NOTE = s
+    try:
+        with open(sys.argv[2] + ".note", "w") as f:
+            f.write(s)
+    except Exception:
+        pass
+
+
 def exn_name(e):
     return type(e).__name__
 
@@ -29,6 +44,7 @@ def main(run_case, per_case_timeout=30):
         for c in cases:
             sys.stdout = io.StringIO()
             sys.stderr = io.StringIO()
+            note("")
             try:
                 signal.alarm(per_case_timeout)
                 try:
@@ -36,7 +52,7 @@ def main(run_case, per_case_timeout=30):
                 finally:
                     signal.alarm(0)
             except Hang:
-                r = {"Hang": []}
+                r = {"Hang": [{"s": "per-case alarm", "note": _NOTE}]}
             except BaseException:
                 r = {"HarnessCrash": [{"s": traceback.format_exc()[-2000:]}]}
             finally:
